@@ -121,6 +121,7 @@ pub mod dice {
 
 // ---- salt replay cache (lru_time_cache behind a std Mutex): interior mutability, modelled only as an oracle
 #[verifier::external_body]
+#[derive(Clone, Copy)]
 pub struct Duration { _d: u8 }
 impl Duration {
     pub uninterp spec fn secs(&self) -> u64;
@@ -133,8 +134,10 @@ impl Duration {
 pub struct LruCache<K, V> { _k: core::marker::PhantomData<(K, V)> }
 impl<K, V> LruCache<K, V> {
     pub uninterp spec fn ttl(&self) -> u64;
+    /// the live entries
+    pub uninterp spec fn m(&self) -> Map<K, V>;
     #[verifier::external_body]
-    pub fn with_expiry_duration_and_capacity(d: Duration, capacity: usize) -> (r: Self) ensures r.ttl() == d.secs() { unimplemented!() }
+    pub fn with_expiry_duration_and_capacity(d: Duration, capacity: usize) -> (r: Self) ensures r.ttl() == d.secs(), r.m() == Map::<K, V>::empty() { unimplemented!() }
 }
 #[verifier::external_body]
 #[verifier::accept_recursive_types(T)]
